@@ -1,0 +1,117 @@
+//go:build verif
+
+// Contracts for package imapnum, checked by /verif/govc (see /verif/DESIGN.md).
+// This file is only compiled with the build tag "verif"; it adds ghost
+// specification functions and //@ contract blocks and changes nothing else.
+
+package imapnum
+
+// ---------------------------------------------------------------------------
+// Mathematical reading of ranges: numbers are 1..2^32-1, 0 stands for "*".
+
+// inRange is the specification of membership of q (0 = "*") in range r.
+//
+//@ pure
+func inRange(r Range, q uint32) bool {
+	if q == 0 {
+		return r.Stop == 0
+	}
+	if r.Start == 0 {
+		return false // the range "*" contains no number
+	}
+	if r.Stop == 0 {
+		return q >= r.Start // "n:*"
+	}
+	return r.Start <= q && q <= r.Stop
+}
+
+// validRange: the representation invariant of Range stated in its doc comment.
+//
+//@ pure
+func validRange(r Range) bool {
+	if r.Start == 0 {
+		return r.Stop == 0 // "*"
+	}
+	return r.Stop == 0 || r.Start <= r.Stop
+}
+
+//@ func (s Range) Contains(q uint32) (result bool)
+//@   props C15
+//@   ensures result == inRange(s, q)
+
+//@ func (s Range) Less(q uint32) (result bool)
+//@   props C15
+//@   ensures result == (s.Stop != 0 && (q == 0 || s.Stop < q))
+//@   ensures validRange(s) && result ==> !inRange(s, q)
+
+//@ func (s Range) Merge(t Range) (union Range, ok bool)
+//@   props C15
+//@   requires validRange(s) && validRange(t)
+//@   ensures validRange(union)
+//@   ensures ok ==> forall q uint32 :: inRange(union, q) == (inRange(s, q) || inRange(t, q))
+//@   ensures !ok ==> union == s
+//@   ensures !ok ==> !(exists q uint32 :: inRange(s, q) && inRange(t, q))
+//@   ensures !ok && s.Start != 0 && t.Start != 0 && s.Start <= t.Start ==> s.Stop != 0 && s.Stop < 4294967295 && s.Stop+1 < t.Start
+//@   ensures !ok && s.Start != 0 && t.Start != 0 && t.Start <= s.Start ==> t.Stop != 0 && t.Stop < 4294967295 && t.Stop+1 < s.Start
+
+// ---------------------------------------------------------------------------
+// Sets.
+
+// canon: canonical form of a set — every range valid, ranges sorted, disjoint
+// and non-adjacent (pairwise form), only the last entry may be "*" or "n:*".
+//
+//@ pure
+func canon(s Set) bool {
+	return __forall(func(i int) bool {
+		return !(0 <= i && i < len(s)) || (validRange(s[i]) &&
+			__forall(func(j int) bool {
+				return !(i < j && j < len(s)) || (s[i].Start != 0 && s[i].Stop != 0 &&
+					(s[j].Start == 0 || uint64(s[i].Stop)+1 < uint64(s[j].Start)))
+			}))
+	})
+}
+
+// inSet: q (0 = "*") is a member of some range of s.
+//
+//@ pure
+func inSet(s Set, q uint32) bool {
+	return __exists(func(k int) bool { return 0 <= k && k < len(s) && inRange(s[k], q) })
+}
+
+//@ func (s Set) search(q uint32) (i int, ok bool)
+//@   props C15
+//@   requires canon(s)
+//@   ensures ok == inSet(s, q)
+//@   ensures ok ==> 0 <= i && i < len(s) && inRange(s[i], q)
+//@   ensures !ok ==> 0 <= i && i <= len(s) && (forall k int :: 0 <= k && k < i ==> s[k].Less(q)) && (i < len(s) ==> !s[i].Less(q))
+//@   loop 0 vars (min int, max int)
+//@   loop 0 invariant 0 <= min && max <= len(s)-1 && (min <= max || len(s) == 0)
+//@   loop 0 invariant forall k int :: 0 <= k && k < min ==> s[k].Less(q)
+//@   loop 0 invariant forall k int :: max <= k && k < len(s) && max < len(s)-1 ==> !s[k].Less(q)
+//@   loop 0 decreases max - min
+
+//@ func (s Set) Contains(q uint32) (result bool)
+//@   props C15
+//@   requires canon(s)
+//@   ensures result == (q != 0 && inSet(s, q))
+
+//@ func (s Set) Dynamic() (result bool)
+//@   props C15
+//@   requires canon(s)
+//@   ensures result == inSet(s, 0)
+
+// Range.append enumerates a static range in ascending order behind nums.
+//
+//@ func (s Range) append(nums []uint32) (out []uint32, ok bool)
+//@   props C15 C11
+//@   requires validRange(s)
+//@   ensures ok == (s.Start != 0 && s.Stop != 0)
+//@   ensures ok ==> len(out) == len(nums) + int(s.Stop-s.Start) + 1
+//@   ensures ok ==> forall k int :: 0 <= k && k < len(nums) ==> out[k] == old(nums[k])
+//@   ensures ok ==> forall k int :: len(nums) <= k && k < len(out) ==> out[k] == s.Start+uint32(k-len(nums))
+//@   loop 0 vars (cur []uint32, n uint64)
+//@   loop 0 invariant uint64(s.Start) <= n && n <= uint64(s.Stop)+1 && s.Start != 0 && s.Stop != 0
+//@   loop 0 invariant len(cur) == len(nums) + int(n-uint64(s.Start))
+//@   loop 0 invariant forall k int :: 0 <= k && k < len(nums) ==> cur[k] == old(nums[k])
+//@   loop 0 invariant forall k int :: len(nums) <= k && k < len(cur) ==> cur[k] == s.Start+uint32(k-len(nums))
+//@   loop 0 decreases int(s.Stop) - int(n) + 1
